@@ -18,7 +18,9 @@ RULE = ("All 8 combinations of usechroot / setuid / setgid, each without a fault
         "with os.chroot/chdir/setgroups/setregid/setreuid, pwd.getpwnam, grp.getgrnam replaced by recorders (socket "
         "bind and TLS key loading are real). Oracle: predicates over the recorded trace. When running as root a forked "
         "child additionally performs the REAL chroot/setgid/setuid sequence and reports its working directory, "
-        "reachability of the real /etc/passwd through relative paths, and its ids. The domain is finite and "
+        "reachability of the real /etc/passwd through relative paths, and its ids; 'real unprivileged' children first become "
+        "an ordinary user for real and must see init_security abort. Recorded cases run with the process believing it is "
+        "uid 0 and uid 1000. The domain is finite and "
         "enumerated completely (exhaustive: true). Non-trivial: every case with >= 1 privilege option or a fault.")
 ASSUMPTIONS = [
     "system calls are recorded, not performed, except in the real-chroot child (only when euid == 0 and chroot(2) is permitted)",
@@ -47,11 +49,16 @@ def enumerate_cases(tier, seed):
                     calls.append("setregid")
                 if su:
                     calls.append("setreuid")
-                yield {"chroot": ch, "setuid": su, "setgid": sg, "fail": None, "real": False}
-                for c in calls:
-                    yield {"chroot": ch, "setuid": su, "setgid": sg, "fail": c, "real": False}
+                # ids: what the process believes it runs as (0 = root; 1000 = an ordinary user holding the needed
+                # capabilities, or - with a failing step - one who does not)
+                for ids in (0, 1000):
+                    yield {"chroot": ch, "setuid": su, "setgid": sg, "fail": None, "real": False, "ids": ids}
+                    for c in calls:
+                        yield {"chroot": ch, "setuid": su, "setgid": sg, "fail": c, "real": False, "ids": ids}
     for ch, su, sg in ((True, True, True), (True, False, False), (False, True, True)):
         yield {"chroot": ch, "setuid": su, "setgid": sg, "fail": None, "real": True}
+    for ch, su, sg in ((True, True, True), (True, False, False), (False, True, True), (False, True, False), (False, False, True)):
+        yield {"chroot": ch, "setuid": su, "setgid": sg, "fail": None, "real": True, "unpriv": True}
 
 
 def _write_conf(base, root, case):
@@ -81,9 +88,10 @@ def _write_conf(base, root, case):
 
 
 class _Patches:
-    def __init__(self, trace, fail):
+    def __init__(self, trace, fail, ids=0):
         self.trace = trace
         self.fail = fail
+        self.ids = ids
         self.saved = []
 
     def _set(self, obj, name, val):
@@ -105,6 +113,8 @@ class _Patches:
             return f
         for n in PRIV:
             self._set(os, n, rec(n))
+        for n in ("getuid", "geteuid", "getgid", "getegid"):
+            self._set(os, n, (lambda v: (lambda: v))(self.ids))
         self._set(pwd, "getpwnam", rec("getpwnam", ("nobody", "x", UID, GID, "", "/", "")))
         self._set(grp, "getgrnam", rec("getgrnam", ("nogroup", "x", GID, [])))
         o_get_server, o_ssl = initialization.get_server, initialization.init_ssl_context
@@ -263,6 +273,16 @@ def _real_child(case, base, root):
             os.close(r)
             logger.log = lambda m: None
             os.chdir(outside)
+            if case.get("unpriv"):
+                # become an ordinary user for real, then ask for the configured drop: every first step must be refused
+                os.setgroups([])
+                os.setregid(gr[2], gr[2])
+                os.setreuid(pw[2], pw[2])
+                try:
+                    os.setgroups([])
+                    out["still_privileged"] = True
+                except PermissionError:
+                    pass
             try:
                 initialization.init_security(cfg)
             except PermissionError as e:
@@ -302,7 +322,7 @@ def check_case(case, ctx):
     base, root = world.build([["readme.txt", "f", "x\n"], ["sub/f.txt", "f", "y\n"]], "c19")
     try:
         ctx.label("chroot:%s" % case["chroot"], "setuid:%s" % case["setuid"], "setgid:%s" % case["setgid"],
-                  "fail:%s" % case["fail"], "real" if case["real"] else "recorded")
+                  "fail:%s" % case["fail"], "real" if case["real"] else "recorded", "ids:%s" % case.get("ids", 0))
         if case["chroot"] or case["setuid"] or case["setgid"] or case["fail"]:
             ctx.nontriv()
         if case["real"]:
@@ -310,7 +330,16 @@ def check_case(case, ctx):
                 ctx.count("real_child_skipped")
                 return []
             out = _real_child(case, base, root)
-            if out is None or "notpermitted" in out:
+            if case.get("unpriv") and out is not None and not out.get("still_privileged") and "error" not in out:
+                ctx.count("real_unprivileged_child_runs")
+                ctx.sample({"case": case, "child_report": out}, cls="unpriv%s" % case["chroot"])
+                if "notpermitted" not in out:
+                    return [Fail("start-up-not-aborted:real-unprivileged",
+                                 "an ordinary user asked for chroot=%s setuid=%s setgid=%s: every step is refused by the kernel, "
+                                 "yet init_security returned and start-up would go on (ids now %r/%r, groups %r)" % (
+                                     case["chroot"], case["setuid"], case["setgid"], out.get("uid"), out.get("gid"), out.get("groups")))]
+                return []
+            if out is None or "notpermitted" in out or case.get("unpriv"):
                 ctx.count("real_child_skipped")
                 return []
             ctx.count("real_child_runs")
@@ -334,7 +363,7 @@ def check_case(case, ctx):
         raised = None
         server = None
         drive.reset_globals()
-        with _Patches(trace, case["fail"]):
+        with _Patches(trace, case["fail"], case.get("ids", 0)):
             try:
                 server = initialization.initialize(conf)
             except BaseException as e:
